@@ -419,6 +419,16 @@ func (m *Manager) IsWatchOnlyAccount(ns walletdb.ReadBucket, keyScope KeyScope,
 	return scopedMgr.IsWatchOnlyAccount(ns, account)
 }
 
+// saltPassphrase returns salt||passphrase in a freshly allocated buffer. The
+// result is zeroed by the callers after hashing, so it must never alias the
+// salt array itself (which append(salt[:], passphrase...) does for an empty
+// passphrase).
+func saltPassphrase(salt *[saltSize]byte, passphrase []byte) []byte {
+	salted := make([]byte, 0, saltSize+len(passphrase))
+	salted = append(salted, salt[:]...)
+	return append(salted, passphrase...)
+}
+
 // lock performs a best try effort to remove and zero all secret keys associated
 // with the address manager.
 //
@@ -995,8 +1005,9 @@ func (m *Manager) ChangePassphrase(ns walletdb.ReadWriteBucket, oldPassphrase,
 		if m.IsLocked() {
 			newMasterKey.Zero()
 		} else {
-			saltedPassphrase := append(passphraseSalt[:],
-				newPassphrase...)
+			saltedPassphrase := saltPassphrase(
+				&passphraseSalt, newPassphrase,
+			)
 			hashedPassphrase = sha512.Sum512(saltedPassphrase)
 			zero.Bytes(saltedPassphrase)
 		}
@@ -1186,8 +1197,9 @@ func (m *Manager) Unlock(ns walletdb.ReadBucket, passphrase []byte) error {
 	// Avoid actually unlocking if the manager is already unlocked
 	// and the passphrases match.
 	if !m.IsLocked() {
-		saltedPassphrase := append(m.privPassphraseSalt[:],
-			passphrase...)
+		saltedPassphrase := saltPassphrase(
+			&m.privPassphraseSalt, passphrase,
+		)
 		hashedPassphrase := sha512.Sum512(saltedPassphrase)
 		zero.Bytes(saltedPassphrase)
 		if hashedPassphrase != m.hashedPrivPassphrase {
@@ -1300,7 +1312,7 @@ func (m *Manager) Unlock(ns walletdb.ReadBucket, passphrase []byte) error {
 	}
 
 	m.locked.Store(false)
-	saltedPassphrase := append(m.privPassphraseSalt[:], passphrase...)
+	saltedPassphrase := saltPassphrase(&m.privPassphraseSalt, passphrase)
 	m.hashedPrivPassphrase = sha512.Sum512(saltedPassphrase)
 	zero.Bytes(saltedPassphrase)
 	return nil
